@@ -1396,7 +1396,7 @@ Proof.
     + rewrite psumf_isum. rewrite isum_swap. apply isum_ext. intros b _. rewrite psumf_isum. apply isum_ext. intros a _.
       rewrite psumf_mul_r. rewrite (R_mget c d _ _ W Rc). reflexivity.
     + intros u v _ _. unfold vdot. rewrite length_vecmat, Enc. apply isum_ext. intros b Hb.
-      unfold vecmat. rewrite vget_vtab by (rewrite Enc; exact Hb). rewrite map_length. rewrite isum_mul_r.
+      unfold vecmat. rewrite vget_vtab by exact Hb. rewrite map_length. rewrite isum_mul_r.
       apply isum_ext. intros a Ha. rewrite !vget_map_pos by assumption. unfold ent. ring.
   - destruct (Nat.eqb (length ra) (length cb)) eqn:E; [|discriminate]. intros H. injection H as <-.
     apply Nat.eqb_eq in E.
@@ -1455,6 +1455,91 @@ Proof.
     + rewrite (V 0%nat) by lia. rewrite map_map. unfold psumf. apply csum_map_ext. intros q _.
       change (map ?f (seq 0 1)) with (vtab 1 f). rewrite vget_vtab by lia. reflexivity.
     + intros H. apply (contract_flag c fmat W) in H. revert H. apply fle_or; [apply fle_refl | exact Fl].
+Qed.
+
+(* ------------------------------------------------------------------ contract_multi *)
+Lemma combine3_map3 {A B D E} (f : A -> B) (g : A -> D) (h : A -> E) l :
+  combine (combine (map f l) (map g l)) (map h l) = map (fun e => ((f e, g e), h e)) l.
+Proof. induction l as [|x l IH]; cbn; [reflexivity | rewrite IH; reflexivity]. Qed.
+
+Lemma map_const_zeros {A} (l : list A) : map (fun _ => c0) l = vzeros (length l).
+Proof. induction l as [|x l IH]; cbn; [reflexivity | rewrite IH; reflexivity]. Qed.
+
+Lemma contract_scalar c d m x f : wf c -> R c d -> dcontract d (Some m) None None = Some (Ok (DVal (OScal x f))) ->
+  exists f', contract c (Some m) None None = Ok (OScal x f').
+Proof.
+  intros W Rc H. pose proof (contract_refines c d (Some m) None None _ W Rc H) as Hr.
+  destruct (contract c (Some m) None None) as [o|e]; cbn [Rres] in Hr; [|contradiction].
+  destruct o; cbn [Rout out_le] in Hr; try contradiction. destruct Hr as [-> _]. eexists. reflexivity.
+Qed.
+
+Lemma multi1_refines c d m x : wf c -> R c d -> dmulti1 d m = Some x ->
+  match m with
+  | MNone => Ok c0
+  | MSp tr _ =>
+    match map_res (fun e => norm_index (ulen c) (fst (fst e))) tr with
+    | Er e => Er e
+    | Ok rs =>
+      match map_res (fun e => norm_index (vlen c) (snd (fst e))) tr with
+      | Er e => Er e
+      | Ok cs => Ok (csum (map (fun t => csum (map (fun q => cmul (cmul (vget (vd (fst q)) (Z.to_nat (fst (fst t)))) (snd t))
+                                                                 (vget (vd (snd q)) (Z.to_nat (snd (fst t)))))
+                                                  (combine (us c) (vs c))))
+                              (combine (combine rs cs) (map snd tr))))
+      end
+    end
+  | MDense m => match contract c (Some m) None None with
+                | Ok (OScal x _) => Ok x
+                | Ok _ => Er ValueE
+                | Er e => Er e
+                end
+  end = Ok x.
+Proof.
+  intros W Rc. pose proof Rc as [Eu [Ev _]]. destruct m as [|tr f|m]; cbn [dmulti1].
+  - intros H. injection H as <-. reflexivity.
+  - destruct (forallb (fun e => in_rangeb (dr d) (fst (fst e)) && in_rangeb (dc d) (snd (fst e))) tr) eqn:Ef; [|discriminate].
+    intros H. injection H as <-. rewrite forallb_forall in Ef.
+    rewrite (map_res_ok _ (fun e => if fst (fst e) <? 0 then fst (fst e) + dr d else fst (fst e))).
+    2:{ intros e He. rewrite Eu. apply norm_index_ok. specialize (Ef e He). apply andb_true_iff in Ef as [Ef _]. exact Ef. }
+    rewrite (map_res_ok _ (fun e => if snd (fst e) <? 0 then snd (fst e) + dc d else snd (fst e))).
+    2:{ intros e He. rewrite Ev. apply norm_index_ok. specialize (Ef e He). apply andb_true_iff in Ef as [_ Ef]. exact Ef. }
+    rewrite combine3_map3, map_map. f_equal. apply csum_map_ext. intros e _. cbn [fst snd].
+    rewrite (R_mget c d _ _ W Rc). fold (pos_of (dr d) (fst (fst e))) (pos_of (dc d) (snd (fst e))).
+    unfold psum. rewrite <- psumf_mul_l. unfold psumf. apply csum_map_ext. intros q _. unfold ent. ring.
+  - destruct (dcontract d (Some m) None None) as [[[dd|[| y fy | | | |]]|]|] eqn:E; try discriminate.
+    intros H. injection H as <-. destruct (contract_scalar c d m y fy W Rc E) as [f' ->]. reflexivity.
+Qed.
+
+Lemma multi1_nodyads c d m x : wf c -> R c d -> us c = [] -> dmulti1 d m = Some x -> x = c0.
+Proof.
+  intros W Rc Eus H. pose proof (multi1_refines c d m x W Rc H) as G.
+  assert (Evs : vs c = []) by (pose proof (wf_len _ W) as L; rewrite Eus in L; destruct (vs c); [reflexivity | discriminate]).
+  destruct m as [|tr f|m].
+  - injection G as <-. reflexivity.
+  - destruct (map_res (fun e => norm_index (ulen c) (fst (fst e))) tr) as [rs|]; [|discriminate].
+    destruct (map_res (fun e => norm_index (vlen c) (snd (fst e))) tr) as [cs|]; [|discriminate].
+    injection G as <-. rewrite Eus. cbn [combine map csum]. apply csum_map_0.
+  - unfold contract in G. destruct (batch_shape (Some m) None None) as [[bs|]|]; try discriminate.
+    + rewrite Eus in G. cbn in G. discriminate.
+    + rewrite Eus in G. cbn in G. injection G as <-. reflexivity.
+Qed.
+
+Lemma multi_refines c d mats r : wf c -> R c d -> dcontract_multi d mats = Some r -> Rres (contract_multi c mats) r.
+Proof.
+  intros W Rc. pose proof Rc as [Eu [Ev [_ Fl]]]. unfold dcontract_multi, contract_multi.
+  destruct ((dr d <? 0) || (dc d <? 0)); [discriminate|].
+  destruct (map_opt (dmulti1 d) mats) as [vals|] eqn:Ev'; [|discriminate]. intros H. injection H as <-.
+  destruct (map_opt_some _ _ _ c0 Ev') as [Evals Hsome].
+  assert (FL : fle (cplx c || existsb mmat_flag mats) (dflag d || existsb mmat_flag mats)) by (apply fle_or; [exact Fl | apply fle_refl]).
+  destruct (Nat.eqb (length (us c)) 0 || Nat.eqb (length (vs c)) 0) eqn:E0.
+  - assert (Eus : us c = []).
+    { apply orb_true_iff in E0 as [E|E]; apply Nat.eqb_eq in E; [|rewrite <- (wf_len _ W) in E]; destruct (us c); auto; discriminate. }
+    cbn [Rres Rout out_le]. split; [|exact FL]. rewrite Evals. rewrite <- map_const_zeros. apply map_ext_in. intros m Hm.
+    destruct (dmulti1 d m) as [x|] eqn:Ex; [|reflexivity]. symmetry. apply (multi1_nodyads c d m x W Rc Eus Ex).
+  - rewrite (map_res_ok _ (fun m => match dmulti1 d m with Some y => y | None => c0 end)).
+    + cbn [Rres Rout out_le]. split; [symmetry; exact Evals | exact FL].
+    + intros m Hm. destruct (dmulti1 d m) as [x|] eqn:Ex; [|exfalso; apply (Hsome m Hm Ex)].
+      apply (multi1_refines c d m x W Rc Ex).
 Qed.
 
 (* ------------------------------------------------------------------ stores, steps, programs *)
@@ -1518,7 +1603,7 @@ Ltac use_bind HW HR Hr dst :=
 Lemma step_refines o s ds ds' r' : wfs s -> Rs s ds -> dstep o ds = Some (ds', r') ->
   exists s' r, step o s = (s', r) /\ wfs s' /\ Rs s' ds' /\ Rres r r'.
 Proof.
-  intros HW HR. destruct o as [dst u v r cn|tgt u v fac|k dst src|tgt src|tgt src|k dst a b|dst a x f|dst a x f|a|a k|dst a i j|tgt i j v|a mat rows cols];
+  intros HW HR. destruct o as [dst u v r cn|tgt u v fac|k dst src|tgt src|tgt src|k dst a b|dst a x f|dst a x f|a|a k|dst a i j|tgt i j v|a mat rows cols|a mats];
     cbn [dstep step].
   - (* new *)
     destruct (dadd_dyad (dzero r cn) u v None) as [d|] eqn:E; [|discriminate]. intros H. injection H as <- <-.
@@ -1597,6 +1682,11 @@ Proof.
     destruct (dcontract d mat rows cols) as [rb|] eqn:E; [|discriminate]. intros H. injection H as <- <-.
     destruct (Rs_nth s ds a d HR HW En) as [c [Ec [W Rc]]]. rewrite Ec.
     eexists _, _. split; [reflexivity|]. splits; auto. apply (contract_refines c d mat rows cols rb W Rc E).
+  - (* contract_multi *)
+    destruct (nth_error ds a) as [d|] eqn:En; [|discriminate].
+    destruct (dcontract_multi d mats) as [rb|] eqn:E; [|discriminate]. intros H. injection H as <- <-.
+    destruct (Rs_nth s ds a d HR HW En) as [c [Ec [W Rc]]]. rewrite Ec.
+    eexists _, _. split; [reflexivity|]. splits; auto. apply (multi_refines c d mats rb W Rc E).
 Qed.
 
 Theorem program_refines p : forall s ds ds' rs', wfs s -> Rs s ds -> drun p ds = Some (ds', rs') ->
@@ -1616,7 +1706,7 @@ Definition writes (o : op) : option nat :=
   match o with
   | ONew dst _ _ _ _ | OUn _ dst _ | OBin _ dst _ _ | OMul dst _ _ _ | ORmul dst _ _ _ | OGet dst _ _ _ => Some dst
   | OAddDyad tgt _ _ _ | OIadd tgt _ | OIsub tgt _ | OSet tgt _ _ _ => Some tgt
-  | OTodense _ | ODiag _ _ | OContract _ _ _ _ => None
+  | OTodense _ | ODiag _ _ | OContract _ _ _ _ | OContractMulti _ _ => None
   end.
 
 Lemma set_slot_other s m c n : n <> m -> (n < length s)%nat -> nth_error (set_slot s m c) n = nth_error s n.
@@ -1633,7 +1723,7 @@ Qed.
 Lemma step_frame o s n : writes o <> Some n -> (n < length s)%nat -> nth_error (fst (step o s)) n = nth_error s n.
 Proof.
   intros Hw Hl.
-  destruct o as [dst u v r cn|tgt u v fac|k dst src|tgt src|tgt src|k dst a b|dst a x f|dst a x f|a|a k|dst a i j|tgt i j v|a mat rows cols];
+  destruct o as [dst u v r cn|tgt u v fac|k dst src|tgt src|tgt src|k dst a b|dst a x f|dst a x f|a|a k|dst a i j|tgt i j v|a mat rows cols|a mats];
     cbn [writes] in Hw; cbn [step];
     repeat match goal with
            | |- context [match get_slot ?s ?k with _ => _ end] => destruct (get_slot s k)
